@@ -44,7 +44,7 @@ struct c05_session : public vsim_session {
   {
     std::ostream &o = *out;
     o << tag << " " << h.it << " " << vs_hex(h.W);
-    for (size_t i = 0; i < h.centers.size(); i++) o << " " << vs_hex(h.centers[i].real_value);
+    for (size_t i = 0; i < h.centers.size(); i++) o << " " << vs_hex(h.centers[i]);   // all components
     o << "\n";
   }
 
@@ -67,10 +67,18 @@ struct c05_session : public vsim_session {
     bool want_grids = a.size() > 1 && atoi(a[1].c_str()) != 0;
     size_t nnew = 0;
     for (colvarbias_meta::hill_iter h = b->new_hills_begin; h != b->hills.end(); h++) nnew++;
-    o << "META nhills=" << b->hills.size() << " nnew=" << nnew << " noff=" << b->hills_off_grid.size() << "\n";
+    // hills_off_grid from new_hills_off_grid_begin on (found by position: never dereferenced)
+    size_t noffnew = 0, pos = 0;
+    bool seen = false;
+    for (colvarbias_meta::hill_iter h = b->hills_off_grid.begin(); h != b->hills_off_grid.end(); h++, pos++) {
+      if (h == b->new_hills_off_grid_begin) { seen = true; noffnew = b->hills_off_grid.size() - pos; break; }
+    }
+    (void) seen;
+    o << "META nhills=" << b->hills.size() << " nnew=" << nnew << " noff=" << b->hills_off_grid.size()
+      << " noffnew=" << noffnew << "\n";
     o << "MENERGY " << vs_hex(b->bias_energy) << "\n";
     o << "MFORCE";
-    for (size_t i = 0; i < b->colvar_forces.size(); i++) o << " " << vs_hex(b->colvar_forces[i].real_value);
+    for (size_t i = 0; i < b->colvar_forces.size(); i++) o << " " << vs_hex(b->colvar_forces[i]);   // all components
     o << "\n";
     for (colvarbias_meta::hill &h : b->hills) print_hill("HILL", h);
     for (colvarbias_meta::hill &h : b->hills_off_grid) print_hill("OFF", h);
